@@ -25,12 +25,28 @@ var codecWriter = &xWriter{
 		"bWriteU32":         {"go_emit_u32", []int{1}},
 		"bWriteU64":         {"go_emit_u64", []int{1}},
 		"b.buf.WriteString": {"go_emit_bytes", []int{0}},
+		"b.buf.Write":       {"go_emit_bytes", []int{0}},
 	},
 	Calls: map[string]string{"b.WriteHead": "tr_WriteHead", "b.WriteInt8": "tr_WriteInt8", "b.WriteInt16": "tr_WriteInt16",
 		"b.WriteInt32": "tr_WriteInt32", "b.WriteInt64": "tr_WriteInt64"},
 }
 
 // codec.Reader: the bytes.Reader inside is abstracted to (underlying bytes, position), see GoSem.go_reader
+// tup.UniAttribute.Encode writes through a *codec.Buffer parameter: its methods are the translated units
+var tupWriter = &xWriter{
+	Prims: map[string]xPrim{},
+	Calls: map[string]string{"os.WriteHead": "tr_WriteHead", "os.WriteInt32": "tr_WriteInt32", "os.WriteString": "tr_WriteString", "os.WriteBytes": "tr_WriteBytes"},
+}
+
+// tup.UniAttribute.Decode reads through a *codec.Reader parameter: its methods are the translated units
+var tupReader = &xStateSpec{
+	Type:   "go_reader",
+	Object: "is",
+	Calls: map[string]string{"is.SkipTo": "tr_SkipTo", "is.ReadInt32": "tr_ReadInt32", "is.ReadString": "tr_ReadString",
+		"is.SkipToNoCheck": "tr_SkipToNoCheck", "is.ReadBytes": "tr_ReadBytes"},
+	Errs: map[string]bool{"fmt.Errorf": true},
+}
+
 var codecReader = &xStateSpec{
 	Type:   "go_reader",
 	Fields: map[string]xStField{"b.depth": {"rd_depth", "go_rd_set_depth"}, "b.ref": {"rd_ref", ""}},
@@ -82,6 +98,7 @@ var xUnits = []xUnit{
 	{Name: "tr_WriteString", Dir: "tars/protocol/codec", Func: "Buffer.WriteString", Writer: codecWriter},
 	{Name: "tr_WriteFloat32", Dir: "tars/protocol/codec", Func: "Buffer.WriteFloat32", Writer: codecWriter},
 	{Name: "tr_WriteFloat64", Dir: "tars/protocol/codec", Func: "Buffer.WriteFloat64", Writer: codecWriter},
+	{Name: "tr_WriteBytes", Dir: "tars/protocol/codec", Func: "Buffer.WriteBytes", Writer: codecWriter},
 	// selector.BuildStaticWeightList up to the scaling range: static-weight check, min / max weight, guard, clamp
 	{Name: "tr_BSWL_range", Dir: "tars/selector", Func: "BuildStaticWeightList", From: "^", To: "if minWeight > 0 {",
 		Outs: []string{"maxRange", "totalWeight", "minWeight", "maxWeight"}},
@@ -120,6 +137,51 @@ var xUnits = []xUnit{
 		From: "^", To: "pos = (tw.currPos + pos) % len(tw.timeWheel)", Outs: []string{"pos"},
 		After:  []string{"c := tw.timeWheel[pos]", "tw.lock.Unlock()", "return c"},
 		Ignore: []string{"tw.lock.Lock()"}, Oracles: map[string]xOracle{"len(tw.timeWheel)": {"wheel_size", "Z"}}},
+	// the receive loops: what happens to one chunk read from the connection - append it, then cut off and hand over
+	// complete packages until the protocol says "less" or "error" (return = the connection is given up)
+	{Name: "tr_srv_recv_chunk", Dir: "tars/transport", Func: "tcpHandler.recv", Deep: true, Fuel: true,
+		From: "currBuffer = append(currBuffer, buffer[:n]...)", To: "for {", Outs: []string{"currBuffer"}, After: []string{}, Fresh: []string{"currBuffer"},
+		Writer: &xWriter{Type: "list (list N)", Prims: map[string]xPrim{"t.handleConn": {"go_deliver", []int{1}}}},
+		Funcs:  map[string]xOracle{"t.server.protocol.ParsePackage": {"parse_package", "list N -> Z * Z"}},
+		Ignore: []string{`TLOG.Errorf("parse package error %s %v", conn.RemoteAddr(), err)`}},
+	// C10: what Protocol.Invoke / InvokeTimeout put into the response (request echo, timeout and error answers)
+	{Name: "tr_Error_Error", Dir: "tars", Func: "Error.Error", Recv: true},
+	{Name: "tr_Invoke_rsp_init", Dir: "tars", Func: "Protocol.Invoke",
+		From: "rspPackage := requestf.ResponsePacket{}", To: "rspPackage := requestf.ResponsePacket{}", Outs: []string{"rspPackage"}},
+	{Name: "tr_InvokeTimeout_rsp_init", Dir: "tars", Func: "Protocol.InvokeTimeout",
+		From: "^", To: "rspPackage := requestf.ResponsePacket{}", Outs: []string{"rspPackage"}},
+	{Name: "tr_Invoke_identity", Dir: "tars", Func: "Protocol.Invoke",
+		From: "rspPackage.IVersion = reqPackage.IVersion", To: "rspPackage.IRequestId = reqPackage.IRequestId", Outs: []string{"rspPackage"}},
+	{Name: "tr_Invoke_queue_timeout", Dir: "tars", Func: "Protocol.Invoke", Deep: true,
+		From: "rspPackage.IRet = basef.TARSSERVERQUEUETIMEOUT", To: `rspPackage.SResultDesc = "server invoke timeout"`, Outs: []string{"rspPackage"}},
+	{Name: "tr_Invoke_error", Dir: "tars", Func: "Protocol.Invoke", Deep: true,
+		From: "rspPackage.IRet = 1", To: "if tarsErr, ok := err.(*Error); ok {", Outs: []string{"rspPackage"}, After: []string{},
+		Oracles: map[string]xOracle{"err.Error()": {"err_text", "list N"}, "err.(*Error)": {"err_is_tars", "bool"}, "tarsErr.Code": {"err_code", "Z"}}},
+	{Name: "tr_Invoke_ptype", Dir: "tars", Func: "Protocol.Invoke",
+		From: "rspPackage.CPacketType = reqPackage.CPacketType", To: "rspPackage.CPacketType = reqPackage.CPacketType", Outs: []string{"rspPackage"}},
+	{Name: "tr_InvokeTimeout_fill", Dir: "tars", Func: "Protocol.InvokeTimeout",
+		From: "if reqPackage.CPacketType == basef.TARSONEWAY {", To: `rspPackage.SResultDesc = "server invoke timeout"`, Outs: []string{"rspPackage"},
+		After: []string{"return s.rsp2Byte(&rspPackage)"}},
+	// C01: ServantProxy.doInvoke, what the caller gets for the reply that arrived (IRet / SResultDesc -> *tars.Error or plain error)
+	{Name: "tr_GetErrorCode", Dir: "tars", Func: "GetErrorCode",
+		Oracles: map[string]xOracle{"err.(*Error)": {"err_is_tars", "bool"}, "e.Code": {"err_code", "Z"}}},
+	{Name: "tr_doInvoke_reply", Dir: "tars", Func: "ServantProxy.doInvoke", Deep: true, ErrVals: "Error",
+		From: "if msg.Status != basef.TARSSERVERSUCCESS || msg.Resp.IRet != 0 {", To: "if msg.Status != basef.TARSSERVERSUCCESS || msg.Resp.IRet != 0 {",
+		Outs: []string{}, After: []string{},
+		Reads: map[string]xOracle{"msg.Status": {"msg_status", "Z"}, "msg.Resp.IRet": {"rsp_ret", "Z"}, "msg.Resp.SResultDesc": {"rsp_desc", "list N"}},
+		Funcs: map[string]xOracle{"fmt.Sprintf": {"sprintf_", "list N -> Z -> list N"}}},
+	// C05T: tup.UniAttribute.Encode: the map head with the count, and what is written per entry (the order of the entries is Go's map order)
+	{Name: "tr_tup_Encode_head", Dir: "tars/protocol/tup", Func: "UniAttribute.Encode", Writer: tupWriter,
+		From: "^", To: "err = os.WriteInt32(int32(len(u.data)), 0)", Outs: []string{"err"},
+		Oracles: map[string]xOracle{"len(u.data)": {"count", "Z"}}},
+	{Name: "tr_tup_Encode_entry", Dir: "tars/protocol/tup", Func: "UniAttribute.Encode", Writer: tupWriter, Deep: true,
+		From: "err = os.WriteString(k, 0)", To: "err = os.WriteBytes(v)", Outs: []string{"err"}, After: []string{"if err != nil {\n\treturn err\n}"}},
+	{Name: "tr_tup_Decode", Dir: "tars/protocol/tup", Func: "UniAttribute.Decode", State: tupReader, Recv: true, Fuel: true, StrMaps: true},
+	{Name: "tr_cli_recv_chunk", Dir: "tars/transport", Func: "connection.recv", Deep: true, Fuel: true,
+		From: "currBuffer = append(currBuffer, buffer[:n]...)", To: "for {", Outs: []string{"currBuffer"}, After: []string{}, Fresh: []string{"currBuffer"},
+		Writer: &xWriter{Type: "list (list N)", Prims: map[string]xPrim{"c.client.protocol.Recv": {"go_deliver", []int{0}}}},
+		Funcs:  map[string]xOracle{"c.client.protocol.ParsePackage": {"parse_package", "list N -> Z * Z"}},
+		Ignore: []string{`TLOG.Error("parse package error")`, "c.close(conn)", "atomic.AddInt32(&c.invokeNum, -1)"}},
 	// the registry <-> endpoint conversions (Tars2endpoint without its cache key)
 	{Name: "tr_Endpoint2tars", Dir: "tars/util/endpoint", Func: "Endpoint2tars"},
 	{Name: "tr_Tars2endpoint_build", Dir: "tars/util/endpoint", Func: "Tars2endpoint", From: "^", To: "e := Endpoint{",
@@ -146,6 +208,51 @@ type xPkg struct {
 	files []*ast.File
 	info  *types.Info
 	pkg   *types.Package
+}
+
+// checkRead: the read path r (identifiers and member selections only) keeps its value while the statements run, as far as
+// the statements themselves are concerned: none assigns to r, to a prefix of r or to something reached through r, takes the
+// address of r or of a prefix, passes a prefix of r to a call, or calls a method on a prefix (ignored statements included)
+func (x *xl) checkRead(stmts []ast.Stmt, r string) {
+	for _, part := range strings.Split(r, ".") {
+		if !token.IsIdentifier(part) {
+			x.fail(stmts[0], "read path %q: identifiers and member selections only", r)
+		}
+	}
+	touches := func(s string) bool { return s == r || strings.HasPrefix(r, s+".") || strings.HasPrefix(s, r+".") }
+	prefix := func(s string) bool { return strings.HasPrefix(r, s+".") }
+	for _, st := range stmts {
+		ast.Inspect(st, func(n ast.Node) bool {
+			switch n := n.(type) {
+			case *ast.AssignStmt:
+				for _, l := range n.Lhs {
+					if touches(x.src(l)) {
+						x.fail(l, "assignment to %s, which the unit reads as the unchanging path %s", x.src(l), r)
+					}
+				}
+			case *ast.IncDecStmt:
+				if touches(x.src(n.X)) {
+					x.fail(n, "%s changes the read path %s", x.src(n), r)
+				}
+			case *ast.UnaryExpr:
+				if n.Op == token.AND && touches(x.src(n.X)) {
+					x.fail(n, "address of %s, which the unit reads as the unchanging path %s", x.src(n.X), r)
+				}
+			case *ast.CallExpr:
+				for _, a := range n.Args {
+					if prefix(x.src(a)) {
+						x.fail(a, "%s, a prefix of the read path %s, is handed to a call", x.src(a), r)
+					}
+				}
+				if se, ok := n.Fun.(*ast.SelectorExpr); ok && (prefix(x.src(se.X)) || x.src(se.X) == r) {
+					x.fail(n, "method call on %s, a prefix of the read path %s", x.src(se.X), r)
+				}
+			case *ast.FuncLit, *ast.GoStmt, *ast.DeferStmt:
+				x.fail(n, "function literal / go / defer in statements with read paths")
+			}
+			return true
+		})
+	}
 }
 
 // xLoader type-checks packages of the tree from source. Imports: packages of the tree's own module are loaded the
@@ -261,7 +368,7 @@ func xlateUnit(root string, u *xUnit, units []xUnit, ld *xLoader, records map[st
 	if fd == nil {
 		panic(xErr{token.Position{Filename: filepath.Join(root, u.Dir)}, "function " + u.Func + " not found"})
 	}
-	x := &xl{xpkg: p, units: units, ptrParam: map[types.Object]bool{}, isParam: map[*types.Var]bool{}, oracleAt: map[string]ast.Node{}, fset: p.fset, info: p.info, pkg: p.pkg, unit: u, names: map[types.Object]string{}, used: map[string]bool{}, records: records, recOrd: recOrd, consts: consts, constOrd: constOrd}
+	x := &xl{xpkg: p, ld: ld, units: units, ptrParam: map[types.Object]bool{}, isParam: map[*types.Var]bool{}, oracleAt: map[string]ast.Node{}, fset: p.fset, info: p.info, pkg: p.pkg, unit: u, names: map[types.Object]string{}, used: map[string]bool{}, records: records, recOrd: recOrd, consts: consts, constOrd: constOrd}
 	if fd.Type.TypeParams != nil {
 		x.fail(fd, "generic functions are outside the subset")
 	}
@@ -314,7 +421,7 @@ func xlateUnit(root string, u *xUnit, units []xUnit, ld *xLoader, records map[st
 		x.retType = "(" + strings.Join(rts, " * ") + ")"
 	}
 	if u.Writer != nil {
-		x.retType = "(list N * " + x.retType + ")"
+		x.retType = "(" + u.Writer.typ() + " * " + x.retType + ")"
 	}
 	// receiver fields (receiver-fields mode) and oracles become parameters; scanned over the translated statements
 	recvAndOracles := func(stmts []ast.Stmt, isSlice bool) {
@@ -353,6 +460,11 @@ func xlateUnit(root string, u *xUnit, units []xUnit, ld *xLoader, records map[st
 							if f := x.field(l); f != nil {
 								written[f] = true
 							}
+							if ie, isIdx := l.(*ast.IndexExpr); isIdx { // recv.m[k] = v sets the map field
+								if f := x.field(ie.X); f != nil {
+									written[f] = true
+								}
+							}
 						}
 					case *ast.IncDecStmt:
 						if f := x.field(n.X); f != nil {
@@ -378,9 +490,13 @@ func xlateUnit(root string, u *xUnit, units []xUnit, ld *xLoader, records map[st
 				}
 			}
 			if !isSlice {
-				x.retType = "(" + strings.Join(rts, " * ") + ")"
-				if len(rts) == 1 {
-					x.retType = rts[0]
+				all := rts
+				if u.State != nil { // state mode: the state comes first
+					all = append([]string{u.State.Type}, rts...)
+				}
+				x.retType = "(" + strings.Join(all, " * ") + ")"
+				if len(all) == 1 {
+					x.retType = all[0]
 				}
 			}
 		}
@@ -392,6 +508,15 @@ func xlateUnit(root string, u *xUnit, units []xUnit, ld *xLoader, records map[st
 		for _, n := range onames {
 			params = append(params, "("+u.Oracles[n].Name+" : "+u.Oracles[n].Type+")")
 		}
+		var rnames []string
+		for n := range u.Reads {
+			rnames = append(rnames, n)
+		}
+		sort.Strings(rnames)
+		for _, n := range rnames {
+			params = append(params, "("+u.Reads[n].Name+" : "+u.Reads[n].Type+")")
+			x.checkRead(stmts, n)
+		}
 		var mnames []string
 		for n := range u.Methods {
 			mnames = append(mnames, n)
@@ -399,6 +524,14 @@ func xlateUnit(root string, u *xUnit, units []xUnit, ld *xLoader, records map[st
 		sort.Strings(mnames)
 		for _, n := range mnames {
 			params = append(params, "("+u.Methods[n].Name+" : "+u.Methods[n].Type+")")
+		}
+		var fnames []string
+		for n := range u.Funcs {
+			fnames = append(fnames, n)
+		}
+		sort.Strings(fnames)
+		for _, n := range fnames {
+			params = append(params, "("+u.Funcs[n].Name+" : "+u.Funcs[n].Type+")")
 		}
 	}
 	body := fd.Body.List
@@ -418,7 +551,7 @@ func xlateUnit(root string, u *xUnit, units []xUnit, ld *xLoader, records map[st
 					continue
 				}
 				if u.State != nil {
-					if x.src(f.Type) == "*bytes.Reader" { // the library object: part of the state
+					if x.src(f.Type) == "*bytes.Reader" || id.Name == u.State.Object { // the library object / the state itself
 						continue
 					}
 					if pt, isPtr := obj.Type().(*types.Pointer); isPtr { // pointer parameter: an in/out value
@@ -460,8 +593,8 @@ func xlateUnit(root string, u *xUnit, units []xUnit, ld *xLoader, records map[st
 		}
 		recvAndOracles(fd.Body.List, false)
 		if u.Writer != nil {
-			params = append(params, "(out : list N)")
-			stateT, final = "(list N)", "Next out"
+			params = append(params, "(out : "+u.Writer.typ()+")")
+			stateT, final = "("+u.Writer.typ()+")", "Next out"
 		} else if u.State != nil {
 			// reaching the end of the body is a return (functions without results, or with named ones)
 			stateT, final = "unit", ""
@@ -472,6 +605,34 @@ func xlateUnit(root string, u *xUnit, units []xUnit, ld *xLoader, records map[st
 		first, last := -1, -1
 		if u.From == "^" { // from the first statement of the function
 			first = 0
+		}
+		if u.Deep { // the statement list (anywhere in the function) that holds the statements From and To; it must be the only one
+			var found [][]ast.Stmt
+			ast.Inspect(fd.Body, func(n ast.Node) bool {
+				var list []ast.Stmt
+				switch n := n.(type) {
+				case *ast.BlockStmt:
+					list = n.List
+				case *ast.CaseClause:
+					list = n.Body
+				case *ast.CommClause:
+					list = n.Body
+				}
+				hasF, hasT := false, false
+				for _, st := range list {
+					line := strings.SplitN(x.src(st), "\n", 2)[0]
+					hasF = hasF || line == u.From
+					hasT = hasT || line == u.To
+				}
+				if hasF && hasT {
+					found = append(found, list)
+				}
+				return true
+			})
+			if len(found) != 1 {
+				x.fail(fd, "slice %q .. %q: %d statement lists of %s hold both anchors (exactly one is needed)", u.From, u.To, len(found), u.Func)
+			}
+			body = found[0]
 		}
 		for i, s := range body {
 			line := strings.SplitN(x.src(s), "\n", 2)[0]
@@ -513,6 +674,21 @@ func xlateUnit(root string, u *xUnit, units []xUnit, ld *xLoader, records map[st
 		seen := map[*types.Var]bool{}
 		for _, s := range body {
 			ast.Inspect(s, func(n ast.Node) bool {
+				if st, isStmt := n.(ast.Stmt); isStmt {
+					for _, ig := range u.Ignore {
+						if x.src(st) == ig {
+							return false
+						}
+					}
+				}
+				if e, isExpr := n.(ast.Expr); isExpr { // an oracle expression / a read path is a parameter as a whole
+					if _, isOracle := u.Oracles[x.src(e)]; isOracle {
+						return false
+					}
+					if _, isRead := u.Reads[x.src(e)]; isRead {
+						return false
+					}
+				}
 				if id, ok := n.(*ast.Ident); ok {
 					if v, ok := x.info.Uses[id].(*types.Var); ok && !v.IsField() && !seen[v] && types.Object(v) != recvObj && v.Parent() != p.pkg.Scope() && v.Parent() != types.Universe &&
 						!(lo <= v.Pos() && v.Pos() < hi) && fd.Pos() <= v.Pos() && v.Pos() < fd.End() {
@@ -525,11 +701,18 @@ func xlateUnit(root string, u *xUnit, units []xUnit, ld *xLoader, records map[st
 		}
 		sort.Slice(free, func(i, j int) bool { return free[i].Pos() < free[j].Pos() })
 		for _, v := range free {
+			if !x.translatable(v.Type()) { // used in ignored statements / untranslated callees only: any other use fails
+				continue
+			}
 			params = append(params, "("+x.declare(v)+" : "+x.coqType(fd, v.Type())+")")
 			x.paramNames = append(x.paramNames, x.names[v])
 			x.isParam[v] = true
 		}
 		recvAndOracles(body, true)
+		if u.Writer != nil {
+			params = append(params, "(out : "+u.Writer.typ()+")")
+			x.paramNames = append(x.paramNames, "out")
+		}
 		if u.State != nil { // state mode: the state is the last parameter and the first component of what is returned
 			params = append(params, "(rd : "+u.State.Type+")")
 			x.paramNames = append(x.paramNames, "rd")
@@ -576,6 +759,8 @@ func xlateUnit(root string, u *xUnit, units []xUnit, ld *xLoader, records map[st
 							if id, ok := ie.X.(*ast.Ident); ok {
 								set[x.info.ObjectOf(id)] = true
 							}
+						} else if sv, _ := x.structVar(l); sv != nil {
+							set[sv] = true
 						}
 					}
 				case *ast.IncDecStmt:
@@ -644,8 +829,7 @@ func xlateUnit(root string, u *xUnit, units []xUnit, ld *xLoader, records map[st
 func xRecordDecl(name string, nm *types.Named, x *xl) string {
 	st := nm.Underlying().(*types.Struct)
 	var fs []string
-	for i := 0; i < st.NumFields(); i++ {
-		f := st.Field(i)
+	for _, f := range x.recFields(st) {
 		fs = append(fs, name+"_"+f.Name()+" : "+x.coqType(nil, f.Type()))
 	}
 	return fmt.Sprintf("(* struct %s *)\nRecord %s := { %s }.\n", nm.String(), name, strings.Join(fs, ";\n  "))
